@@ -66,6 +66,15 @@ def gen(seed):
                 if rng.random() < 0.7:
                     e['occ'] = rng.randrange(repeat * 2)
                 plan.append(e)
+            if kind == 'threading' and rng.random() < 0.25:
+                # it is renamed while it runs (a pool worker picking up a job): the ignore
+                # patterns see the name it has when a test ends
+                e = dict(rng.choice(sites + lsites))
+                e.update({'a': 'call', 'fn': 'thread_rename', 'tname': 'T%d' % k,
+                          'name': rng.choice(['job-%d' % k, 'ignored-x', 'pool-9', 'worker-2'])})
+                if rng.random() < 0.7:
+                    e['occ'] = rng.randrange(repeat * 2)
+                plan.append(e)
             r = rng.random()
             if r < 0.75:
                 e = dict(rng.choice(sites + lsites))
@@ -85,7 +94,7 @@ def gen(seed):
         opt['extra'] = ['--ignore-new-thread=%s' % x for x in ign]
     # starts before ends at the same site; raises last
     plan = [e for e in plan if e.get('fn') == 'thread_start'] + \
-           [e for e in plan if e.get('fn') == 'thread_poke'] + \
+           [e for e in plan if e.get('fn') in ('thread_poke', 'thread_rename')] + \
            [e for e in plan if e.get('fn') == 'thread_end'] + \
            [e for e in plan if e['a'] != 'call']
     return {'property': ID, 'seed': seed, 'world': world, 'plan': plan, 'opt': opt,
@@ -103,7 +112,13 @@ def expected_reports(spec, res, tw):
     started = {}
     ended = {}
     poked = {}
+    renames = {}     # tname -> [(trace index, new name)]
     for i, ev in enumerate(events):
+        if ev[1] == 'fault' and ev[2] == 'call:thread_rename':
+            e_ = plan[ev[3]]
+            tn = e_['tname']
+            if tn in started and tn not in ended and tw.reg[tn]['kind'] == 'threading':
+                renames.setdefault(tn, []).append((i, e_['name']))
         if ev[1] == 'fault' and ev[2] == 'call:thread_poke':
             tn = plan[ev[3]]['tname']
             if tn in started and tn not in ended and tw.reg[tn]['kind'] == 'lowlevel':
@@ -131,6 +146,9 @@ def expected_reports(spec, res, tw):
                 rec = tw.reg[tn]
                 name = (rec['name'] or tn) if rec['kind'] == 'threading' \
                     else 'Dummy-%d' % rec['sim']
+                for at, newname in renames.get(tn, []):
+                    if at < hi:
+                        name = newname      # the name it has when the test ends
                 if any(p.match(name) for p in ign):
                     continue
                 # (once it is known to threading it is shown as a thread object)
@@ -161,7 +179,8 @@ def run(spec, ctx):
     TS.current_frames = tw.current_frames
     TS.threading = threadsim.ThreadingSeam(tw)
     TS.sys = threadsim.SysSeam(tw)
-    calls = {'thread_start': tw.start, 'thread_end': tw.end, 'thread_poke': tw.poke}
+    calls = {'thread_start': tw.start, 'thread_end': tw.end, 'thread_poke': tw.poke,
+             'thread_rename': tw.rename}
     orig_install = simrt.install
 
     def install(*a, **kw):
